@@ -114,6 +114,7 @@ pub fn scalar_be32(s: S) -> [u8; 32] {
                 b
             }
             None => {
+                c.epoch += 1;
                 let r = c.repr(s.0);
                 let k = c.slot_of(r);
                 let p = 64 + 4 * k;
